@@ -15,21 +15,8 @@
    The property (statement of C12): every process other than the triggering one receives exactly one termination
    notification and no process receives two; the local trigger is the root's own (single) notification, so a
    message that reaches the root is a second one. *)
-EXTENDS Naturals, Integers, Sequences, FiniteSets, TLC
-CONSTANTS Ns,       \* set of communicator sizes explored (the size is chosen by Init)
-          Variant    \* "code" = what the C code does; "le" = sensitivity self-test (2*rel+2 <= n: must violate AtMostOnce)
-
-\* ---- the tree of parsec_termdet_signal_termination, parameterised by the number of processes n ------------------
-Rel(n, r, root) == (r - root + n) % n                                   \* my rank in the shifted world
-NbChildren(n, rel) == IF Variant = "le" THEN (IF 2*rel + 2 <= n THEN 2 ELSE IF 2*rel + 1 < n THEN 1 ELSE 0)
-                      ELSE IF 2*rel + 2 < n THEN 2 ELSE IF 2*rel + 1 < n THEN 1 ELSE 0
-\* children in the order of the send loop: child = 2*my_rank + i + 1 (i = 0..nb-1), real_child = (child + root) % n
-ChildSeq(n, r, root) == [i \in 1..NbChildren(n, Rel(n, r, root)) |-> (2*Rel(n, r, root) + i + root) % n]
-
-\* ---- the property, as predicates over "how many notifications did each process receive" -------------------------
-\* (the root's own trigger is its notification: it must not receive a message at all)
-NoneTwice(n, root, notif) == \A r \in 0..(n-1) : notif[r] <= (IF r = root THEN 0 ELSE 1)
-EveryOtherOnce(n, root, notif) == \A r \in 0..(n-1) : r # root => notif[r] = 1
+EXTENDS UserTriggerTree      \* the tree of parsec_termdet_signal_termination + the property predicates (CONSTANT Variant)
+CONSTANTS Ns        \* set of communicator sizes explored (the size is chosen by Init)
 
 VARIABLES N,         \* number of processes of this behaviour (never changes)
           st,        \* st[r] \in {"NR", "BUSY", "TERM"}   monitor->state
